@@ -565,7 +565,18 @@ class C20(CompSpec):
                 scen["max_nodes"] = None
                 scen["policy"]["finish_w"] = rng.choice([0.02, 0.05, 0.2])
                 scenario.normalize(scen)
-            out.append(sim_task(scen, s, len(out)))
+            t = sim_task(scen, s, len(out))
+            if k % 4 == 3:
+                # the jobs also log resource samples like a periodic resource monitor (kept as <name>.parquet in the events
+                # directory), reports are generated at completion (which consolidates the events), and the submission is then
+                # resubmitted and completes again: every event of both rounds must be in the summary
+                scen["job_events"] = 2
+                scen["reports"] = True
+                if not any(j["rc"] for j in scen["jobs"]):
+                    scen["jobs"][0]["rc"] = 1
+                scen["resubmit"] = {"rounds": [{"failed": True, "missing": True, "successful": rng.random() < 0.3}]}
+                t["args"]["cls"] = "sim.resub:ResubSim"
+            out.append(t)
         return out
 
     def counters(self, tasks, results):
@@ -574,6 +585,8 @@ class C20(CompSpec):
         out["simulated_submissions_checked"] = sum(1 for r in ok if r.get("events_checked"))
         out["events_logged_by_jobs_of_simulated_submissions_checked"] = sum(r.get("job_events_checked") or 0 for r in ok)
         out["events_written_by_real_jade_processes_checked"] = sum(r.get("events_checked") or 0 for r in ok)
+        out["resource_samples_logged_by_jobs_checked_in_the_parquet_summary"] = sum(r.get("stat_samples_checked") or 0 for r in ok)
+        out["simulated_submissions_with_reports_resubmitted_and_completed_again"] = sum(1 for r in ok if r.get("events_checked") and (r.get("epochs") or 1) > 1)
         ok = [r for r in ok if "part" in r]
         for r in ok:
             out["cases_by_part"][r["part"]] = out["cases_by_part"].get(r["part"], 0) + r["cases"]
